@@ -504,6 +504,19 @@ Walk:
 	paramKeyCnt = 0
 	hasSkpNds := len(*c.skipNds) > 0
 
+	// Tsr recommendation: remove the extra trailing slash (got an exact match with the parent)
+	// The walk stopped at the very beginning of a wildcard child, because the remaining path is a single slash.
+	// /foo [leaf=/foo]
+	//	  {bar} [leaf=/foo{bar}]
+	if !tsr && charsMatchedInNodeFound == 0 && charsMatched == len(path)-1 && path[charsMatched] == slashDelim && parent != nil && parent.isLeaf() && current != target {
+		tsr = true
+		n = parent
+		// Save also a copy of the matched params, it should not allocate anything in most case.
+		if !lazy {
+			copyWithResize(c.tsrParams, c.params)
+		}
+	}
+
 	if !current.isLeaf() {
 
 		if !tsr {
